@@ -187,6 +187,14 @@ prop("C09", True,
      "goroutine-exit rule on the VTA call graph + loop/error-edge reachability + Reader-contract sibling rule + open/close pairing over go/ssa",
      "DESIGN.md §2 C09")
 
+prop("C14", True,
+     "Static check of the two structural clauses only; THE ARITHMETIC CORE (SYN-ACK/ACK numbers modulo 2^32 over all ISNs, one's-complement checksums over all payload parities, state-table lookup under all interleavings, payload-prefix content) IS NOT DECIDED – no static argument in reach bounds those run-time numerics. "
+     "Decided: (1) replies are addressed back to the sender and carry this connection's counters: role-swapped provenance of every field of the tcp/ipv4 header literals in send(), NewState/StateTable.Get argument roles, RecvNext = SYN seq + 1 and SendNext = ISS + 1 stored before the SYN|ACK, sent only in LISTEN; "
+     "(2) simultaneous connections do not disturb each other through shared memory: lock table (Canary.buffer under Canary.m; Socket.rbuffer under State.m locally or in every caller; any other used ring field fails closed) and ring ownership (a ring field is only assigned a fresh allocation and never handed on).",
+     "glycerine/rbuf rings are not concurrency safe; locks are matched by field name; the arithmetic is out of scope.",
+     "field-role provenance of composite literals + lock-dominance table (with caller-held locks) + ownership/escape rule over go/ssa",
+     "DESIGN.md §2 C14")
+
 PENDING = {
  "C01": "check not built yet in this revision (design: DESIGN.md §2 C01)",
 }
